@@ -177,6 +177,12 @@ func ruleC15_9(c *Ctx) {
 					okList = true
 				}
 			}
+			// the key is the least (greatest) key of the same, non-empty map, picked by a min-scan helper; in the function
+			// itself or handed to an unexported helper together with the map by every caller
+			if c.selectedKeyOf(f, key, m, call.Block()) {
+				c.ok(R, fname(f), what, call.Pos(), "key is the minimum / maximum key of the same map, which is non-empty here")
+				continue
+			}
 			if okList {
 				c.ok(R, fname(f), what, call.Pos(), "key is taken from the key list of the same map")
 				continue
@@ -223,4 +229,75 @@ func (c *Ctx) onlyFedBy(f *ssa.Function, i int, producerName string) bool {
 		n++
 	}
 	return n > 0
+}
+
+// isKeySelector: g(m) returns the result of a minimum / maximum scan over the keys of its map parameter (minScanShape).
+func isKeySelector(g *ssa.Function) bool {
+	if g == nil || g.Blocks == nil || len(g.Params) != 1 || g.Signature.Results().Len() != 1 {
+		return false
+	}
+	mls := mapLoops(g)
+	if len(mls) != 1 || mls[0].rng.X != ssa.Value(g.Params[0]) {
+		return false
+	}
+	for _, r := range returnsOf(g) {
+		ok := false
+		ph, isPhi := r.Results[0].(*ssa.Phi)
+		if isPhi && ph.Block() == mls[0].header {
+			if _, shape := minScanShape(mls[0], ph); shape {
+				// the element scanned is the key
+				ok = true
+				for _, e := range ph.Edges {
+					if e == mls[0].val && mls[0].val != nil {
+						ok = false
+					}
+				}
+			}
+		}
+		if !ok {
+			return false
+		}
+	}
+	return true
+}
+
+// selectedKeyOf: key is selector(m) for a key selector, and m is non-empty at blk (inside a range over m, or by length
+// facts); or key and m are parameters of the unexported function f and every module caller passes such a pair.
+func (c *Ctx) selectedKeyOf(f *ssa.Function, key, m ssa.Value, blk *ssa.BasicBlock) bool {
+	nonEmpty := func(g *ssa.Function, mv ssa.Value, b *ssa.BasicBlock) bool {
+		for _, ml := range mapLoops(g) {
+			if resolve(ml.rng.X, nil) == mv && ml.body[b] && b != ml.header {
+				return true
+			}
+		}
+		return c.lenFactsExclude(g, mv, 1, b)
+	}
+	direct := func(k, mv ssa.Value) bool {
+		call, ok := k.(*ssa.Call)
+		return ok && isKeySelector(call.Call.StaticCallee()) && len(call.Call.Args) == 1 && resolve(call.Call.Args[0], call) == mv
+	}
+	if direct(key, m) && nonEmpty(f, m, blk) {
+		return true
+	}
+	kp, ok1 := key.(*ssa.Parameter)
+	mp, ok2 := m.(*ssa.Parameter)
+	if !ok1 || !ok2 || f.Object() == nil || f.Object().Exported() || !nonEmpty(f, m, blk) {
+		return false
+	}
+	node := c.CG.Nodes[f]
+	if node == nil || len(node.In) == 0 {
+		return false
+	}
+	for _, e := range node.In {
+		cs := e.Site
+		if cs == nil || cs.Common().StaticCallee() != f {
+			return false
+		}
+		args := cs.Common().Args
+		ki, mi := paramIndex(kp), paramIndex(mp)
+		if ki >= len(args) || mi >= len(args) || !direct(resolve(args[ki], cs), resolve(args[mi], cs)) {
+			return false
+		}
+	}
+	return true
 }
